@@ -1613,6 +1613,7 @@ impl Evaluator {
 
     /// See [Evaluator::mod_switch_to_next_plain].
     pub fn mod_switch_to_next_plain_new(&self, plain: &Plaintext) -> Plaintext {
+        self.check_plaintext(plain);
         let mut result = plain.clone();
         self.mod_switch_drop_to_next_plain_internal(&mut result);
         result
